@@ -30,7 +30,18 @@ def corruptions(text, rng, budget):
     lines = text.split("\n")
     out = []
     nrec = (len(lines) - 1) // 4
-    alphabet = "ACGTN"
+    alphabet = "ACGTN" + "".join(rng.sample("URYWSMKBDHV+", 3))    # every letter the .mfe grammar admits gets its turn
+    # letters the reader admits that the finisher's complement table does not tell apart from another letter (none when the
+    # table is injective, which is what the detection theorems assume: PepperProps/C17 `finisher_table_lawful`): a
+    # substitution between them is invisible to the x / x* comparison, so these corruptions are always tried, never sampled
+    from peppercompiler.DNA_classes import complement as _compl
+    from peppercompiler import nupack_out_grammar as _g
+    try:
+        admitted = "".join(sorted(set(_g.seq.initCharsOrig)))
+    except AttributeError:
+        admitted = "ATUCG+NRYWSMKBDHV"
+    collide = {c: [a for a in admitted if a != c and a in _compl and _compl.get(a) == _compl.get(c)] for c in admitted if c in _compl}
+    forced = []
     for r in range(nrec):
         h, s, t, m = lines[4 * r:4 * r + 4]
         def put(idx, new, what):
@@ -43,6 +54,9 @@ def corruptions(text, rng, budget):
             for a in alphabet:
                 if a != c:
                     put(1, seq[:i] + a + seq[i + 1:] + " " + rest, "base %s[%d] %s->%s" % (name, i, c, a))
+            for a in collide.get(c, ()):
+                put(1, seq[:i] + a + seq[i + 1:] + " " + rest, "base %s[%d] %s->%s (letters with one complement)" % (name, i, c, a))
+                forced.append(out.pop())
             put(1, seq[:i] + seq[i + 1:] + " " + rest, "delete base %s[%d]" % (name, i))
         put(1, seq + "A " + rest, "append base to %s" % name)
         put(1, "A" + seq + " " + rest, "prepend base to %s" % name)
@@ -76,7 +90,7 @@ def corruptions(text, rng, budget):
     total = len(out)
     if len(out) > budget:
         out = rng.sample(out, budget)
-    return out, total
+    return forced[:budget] + out, total + len(forced)
 
 
 def run(st, tier, seed):
